@@ -56,15 +56,17 @@ theorem closed_upd {s : St} (hc : Closed s) {b p : Blk} (hpar : parentOf s.store
     exact ⟨x :: l, .cons (parentOf_mono hext hpar) (hl.mono hext)⟩
 
 /-- with an ancestor-closed store `reorg` finds the common ancestor -/
-theorem reorg_ok_of_closed (W : World U) {s : St} {hb : Blk} {C : List Blk} (h : InvC U s hb C) (hc : Closed s)
+theorem reorg_ok_of_closedK {s : St} (hsub : StoreExt s.store U) (hc : Closed s) (hg0 : s.genesis.number = 0)
+    {k : Nat} {hb : Blk} (hhb : s.store k = some hb)
     {b p : Blk} (hbU : U b.id = some b) (hpar : parentOf s.store b = some p) (ptd : Nat) :
     reorg (afterStored s b ptd) hb b ≠ none := by
-  have hext : StoreExt s.store (afterStored s b ptd).store := (storeExt_upd h hbU).1
+  have hext : StoreExt s.store (afterStored s b ptd).store := (storeExt_updK hsub hbU).1
   obtain ⟨lp, hlp⟩ := hc _ _ (parentOf_some hpar).1
+  obtain ⟨C, hC⟩ := hc _ _ hhb
   have hbp : Path (afterStored s b ptd).store b (b :: lp) s.genesis :=
     .cons (parentOf_mono hext hpar) (hlp.mono hext)
-  have hhp : Path (afterStored s b ptd).store hb C s.genesis := h.path.mono hext
-  have hg := h.genNum
+  have hhp : Path (afterStored s b ptd).store hb C s.genesis := hC.mono hext
+  have hg := hg0
   have hm1 : min hb.number b.number ≤ hb.number := Nat.min_le_left _ _
   have hm2 : min hb.number b.number ≤ b.number := Nat.min_le_right _ _
   obtain ⟨O1, O2, o, hO, hO1, hO2, hon⟩ := hhp.split (min hb.number b.number) (by rw [hg]; omega) hm1
@@ -83,6 +85,11 @@ theorem reorg_ok_of_closed (W : World U) {s : St} {hb : Blk} {C : List Blk} (h :
   simp only [hr1, hr2, hr]
   simp
 
+theorem reorg_ok_of_closed (W : World U) {s : St} {hb : Blk} {C : List Blk} (h : InvC U s hb C) (hc : Closed s)
+    {b p : Blk} (hbU : U b.id = some b) (hpar : parentOf s.store b = some p) (ptd : Nat) :
+    reorg (afterStored s b ptd) hb b ≠ none :=
+  reorg_ok_of_closedK h.sub hc h.genNum h.headStored hbU hpar ptd
+
 /-- the fields of the state after a canonical write -/
 theorem afterCanon_fields {s s2 : St} {b cur : Blk} {ptd : Nat}
     (hs2 : s2 = afterTd s b ptd ∨ reorg (afterStored s b ptd) cur b = some s2) :
@@ -97,7 +104,7 @@ theorem afterCanon_fields {s s2 : St} {b cur : Blk} {ptd : Nat}
       afterTd]
 
 theorem good_stable (W : World U) (g : Blk) (t0 : Nat) : Stable U (Good U g t0) True where
-  inv := fun _ h => h.1
+  base := fun _ h => inv_base h.1
   wbws := by
     intro s b p coin hG hbU hpar hps
     obtain ⟨hinv, hcl, hmax, hstd, hge, hgg⟩ := hG
